@@ -177,6 +177,22 @@ fn failing_calls_n<const N: usize>() {
         s.bind(0, 1, lab(0));
         s
     };
+    // a walk that fails half-way: an edge into a collected vertex below the start
+    let dangling = || {
+        let mut s: Sodg<N> = Sodg::empty(6);
+        for v in 0..4 {
+            s.add(v);
+        }
+        s.bind(0, 1, lab(0));
+        s.bind(2, 3, lab(0));
+        s.bind(1, 2, lab(0));
+        s.put(3, &dat(0));
+        s.put(0, &dat(0));
+        let _ = s.data(3);
+        s
+    };
+    let _ = guarded(|| dangling().inspect(0).map(|t| t.len()));
+    let _ = guarded(|| dangling().slice(0).map(|t| t.len()));
     let _ = guarded(|| small().inspect(300).map(|t| t.len()));
     let _ = guarded(|| small().inspect(2).map(|t| t.len()));
     let _ = guarded(|| small().slice(300).map(|t| t.len()));
@@ -197,7 +213,7 @@ fn failing_calls_n<const N: usize>() {
         let seen = std::cell::Cell::new(0);
         let _ = a.slice_some(10, |_, _, _| {
             seen.set(seen.get() + 1);
-            assert!(seen.get() < 3, "predicate gives up");
+            assert!(seen.get() < 2, "predicate gives up at the second edge");
             true
         });
     });
